@@ -103,6 +103,19 @@ def mk_cmpz(op: str, d: Term) -> Term:
     if lead[1] < 0:
         d = lin_scale(d, -1)
         op = {"<": ">", "<=": ">=", ">": "<", ">=": "<=", "==": "==", "!=": "!="}[op]
+    # a length is never negative: len(x) <= 0 is len(x) == 0, len(x) > 0 is len(x) != 0
+    atoms, c = lin_parts(d)
+    if c == 0 and len(atoms) == 1:
+        (a0, k0), = atoms.items()
+        if k0 == 1 and a0[0] == "call" and a0[1] == ("g", "builtin:len"):
+            if op == "<=":
+                op = "=="
+            elif op == ">":
+                op = "!="
+            elif op == "<":
+                return C(False)
+            elif op == ">=":
+                return C(True)
     return ("cmpz", op, d)
 
 
@@ -927,6 +940,12 @@ class Norm:
                        for tg in (st.targets if isinstance(st, ast.Assign) else [st.target]) if isinstance(tg, ast.Name) and tg.id == name)
         if n_assign != 1:
             return None
+        # NAME = lru_cache(..)(f): f, remembered - the same function as far as values go
+        if isinstance(node, ast.Call) and isinstance(node.func, ast.Call) and (dotted_name(node.func.func) or "").split(".")[-1] in ("lru_cache", "cache") \
+                and len(node.args) == 1 and not node.keywords and isinstance(node.args[0], (ast.Name, ast.Attribute)):
+            t = self.norm(node.args[0], Scope(m, None))
+            cache[q] = t
+            return t
         for sub in (ast.walk(node) if not isinstance(node, ast.Lambda) else []):       # (NAME = lambda ..: a function under another spelling)
             if isinstance(sub, ast.Call):
                 fn = dotted_name(sub.func) or ""
@@ -1502,6 +1521,8 @@ class Norm:
         if f == ("g", "builtin:list") and len(args) == 1 and not kwargs and ((args[0][0] == "new" and args[0][1] == "list") or args[0][0] == "list"
                                                                             or (args[0][0] == "comp" and args[0][1] == "list")):
             return args[0]          # a copy of a list that was just built is, as a value, that list
+        if f == ("g", "builtin:tuple") and len(args) == 1 and not kwargs and args[0][0] == "comp" and args[0][1] == "list":
+            return args[0]          # the same elements in the same order (sequences are compared by content here)
         t = self.mk_call(f, args, kwargs, scope)
         if self.on_call is not None:
             r = self.on_call(t, node, scope, (f, args, kwargs))
@@ -1598,6 +1619,13 @@ class Norm:
         # calling a functools.partial application calls the function with the bound arguments first
         if f[0] == "call" and f[1] in (("g", "ext:functools.partial"), ("g", "ext:partial")) and f[2] and not f[3]:
             return self.mk_call(f[2][0], list(f[2][1:]) + list(args), kwargs, scope)
+        # bytes(b) of a bytes value is that value
+        if f == ("g", "builtin:bytes") and len(args) == 1 and not kwargs:
+            try:
+                if self.type_of(args[0], scope) == P_BYTES:
+                    return args[0]
+            except Exception:
+                pass
         # b"".join((x, y, z)) / "".join([..]) of a display is the concatenation
         if f[0] == "a" and f[2] == "join" and f[1] in (C(b""), C("")) and len(args) == 1 and not kwargs and args[0][0] in ("tuple", "list") and args[0][1]:
             parts = args[0][1]
